@@ -31,6 +31,7 @@ class EntropySource:
         self.active = None       # set by the executor: name of the API call in progress
         self.by_call = {}        # api-call name -> bytes requested
         self.exhausted = False
+        self.hook = None         # one-shot callback run inside the next draw (re-entrancy seam)
 
     def _uniform(self, n):
         out = b""
@@ -43,6 +44,10 @@ class EntropySource:
     DRAW_CAP = 4096      # a correct sampler (acceptance >= 1/2) never needs this many draws
 
     def __call__(self, n):
+        h = self.hook
+        if h is not None:
+            self.hook = None
+            h()
         i = self._i
         self._i += 1
         if i >= self.DRAW_CAP:
